@@ -139,6 +139,7 @@ class Grid3Scales(Grid):
             self.smoothing,
             wallCenter,
         )
+        self.positionFalloff = wallThickness
 
         self._cacheCoordinates()
 
